@@ -86,11 +86,15 @@ type Rules struct {
 	Lte      *string  `json:"lte,omitempty"`
 	NumIn    []string `json:"num_in,omitempty"`
 	NumConst *string  `json:"num_const,omitempty"`
-	MinItems *uint64  `json:"min_items,omitempty"`
-	MaxItems *uint64  `json:"max_items,omitempty"`
-	Unique   *bool    `json:"unique,omitempty"`
-	MinPairs *uint64  `json:"min_pairs,omitempty"`
-	MaxPairs *uint64  `json:"max_pairs,omitempty"`
+	// NumGroup names the buf.validate rule group (int32, sint32, uint64, float, ...) the numeric
+	// rules are declared under; empty means the group of the field's own kind (the only choice
+	// protovalidate accepts).
+	NumGroup string  `json:"num_group,omitempty"`
+	MinItems *uint64 `json:"min_items,omitempty"`
+	MaxItems *uint64 `json:"max_items,omitempty"`
+	Unique   *bool   `json:"unique,omitempty"`
+	MinPairs *uint64 `json:"min_pairs,omitempty"`
+	MaxPairs *uint64 `json:"max_pairs,omitempty"`
 }
 
 type Oneof struct {
